@@ -156,9 +156,6 @@ Proof.
   - discriminate.
 Qed.
 
-(** a chain of k nested calls (runaway recursion) *)
-Fixpoint chain (k : nat) : frame :=
-  match k with O => Call [] false | S k' => Call [chain k'] false end.
 
 Lemma chain_overflow k : forall s,
   max s - cur s <= k -> cur s <= max s -> fst (run (chain k) s) = StackOverflow.
